@@ -61,7 +61,7 @@ TAdvance == /\ R.a \notin {"Reset", "Stall"} /\ R.at > now
 TAdvanceBad == /\ R.a \notin {"Reset", "Stall"} /\ R.at > now
                /\ ~CanAdvance(R.at)
                /\ now' = R.at
-               /\ pending' = {r \in pending : Due(r) >= R.at}
+               /\ pending' = {r \in pending : HasDue(r) => Due(r) >= R.at}
                /\ bad' = Append(bad, l)
                /\ UNCHANGED <<running, req, out, lagged, l>>
 
@@ -79,7 +79,7 @@ StepOK ==
        \/ R.a = "Emit" /\ R.k = "resp" /\ CanRespond(R.id) /\ EvOf(R) = EventOf(R.id, "resp")
        \/ R.a = "Emit" /\ R.k = "timeout" /\ CanTimeout(R.id) /\ EvOf(R) = EventOf(R.id, "timeout")
        \/ R.a = "Shutdown" /\ running
-       \/ R.a = "End" /\ (running => pending = {})
+       \/ R.a = "End" /\ (running => \A r \in pending : ~HasDue(r))
 
 LastEv(o) == o[Len(o)].ev
 
@@ -88,7 +88,7 @@ TStepOK == /\ R.a # "Reset" /\ R.at = now
               \/ R.a = "Emit" /\ R.k = "resp" /\ ClientResponds(R.id) /\ LastEv(out') = EvOf(R)
               \/ R.a = "Emit" /\ R.k = "timeout" /\ TimeoutFires(R.id) /\ LastEv(out') = EvOf(R)
               \/ R.a = "Shutdown" /\ Shutdown
-              \/ R.a = "End" /\ (running => pending = {}) /\ UNCHANGED vars
+              \/ R.a = "End" /\ (running => \A r \in pending : ~HasDue(r)) /\ UNCHANGED vars
            /\ l' = l + 1
            /\ UNCHANGED bad
 
